@@ -8,7 +8,9 @@ so an unchanged tree does not trigger a Lean rebuild.
  * Templates.lean for a fixed set of probe objects and both backends: per generated block (integral,
                   form, expression, file pre/post) the identifiers DECLARED in the header text and
                   DEFINED in the source text (obtained by running FFCx's own generators and lexing the
-                  two strings), the alias definitions, and the alias name the IR asked for.
+                  two strings), the alias definitions, and the alias name expected from the UFL objects,
+                  their names and the prefix of the probe (computed here, not read back from the IR).
+                  (The template STRINGS themselves are translated by harness/extract_templates.py.)
                   SHA-1 digests inside names are replaced by role labels (F0, I1, E0 …) taken from the
                   IR so that the table does not depend on UFL signatures.
 """
@@ -365,7 +367,7 @@ def probes():
     # unnamed form without coefficients (NULL branches); alias falls back to the index
     m, V = tri()
     u, v = ufl.TrialFunction(V), ufl.TestFunction(V)
-    out.append(("plain", [u * v * ufl.dx], {}, "pfx"))
+    out.append(("plain", [u * v * ufl.dx], {}, "q_2"))
     # prism exterior facets: two kernels (triangle, quadrilateral) for one integral
     m = ufl.Mesh(basix.ufl.element("P", "prism", 1, shape=(3,)))
     V = ufl.FunctionSpace(m, basix.ufl.element("P", "prism", 1))
@@ -396,8 +398,18 @@ def _labels(ir):
     return lab
 
 
-def template_blocks():
-    """Run the real generators on the probes; return list of block dicts (sorted, canonical)."""
+def template_blocks(problems=None):
+    """Run the real generators on the probes; return list of block dicts (sorted, canonical).
+
+    The name of the generated object of a block is the recorded filling of the `factory_name` hole
+    of the template that produced the block's implementation text (extract_templates.Recorder);
+    if no recorded instantiation matches, the comment `Code for <kind> <name>` is tried; if that
+    fails too the block gets no factory name and a message is appended to `problems` (reported by
+    the check as a broken correspondence, not as a broken build).  The expected alias is computed
+    from the UFL objects, their names and the prefix of the probe — not read back from the IR."""
+    from . import extract_templates as _T
+
+    problems = problems if problems is not None else []
     from ffcx.analysis import analyze_ufl_objects
     from ffcx.codegeneration.codegeneration import generate_code
     from ffcx.ir.representation import compute_ir
@@ -408,19 +420,26 @@ def template_blocks():
         for pname, objs, onames, prefix in probes():
             opts = {k: v[1] for k, v in FFCX_DEFAULT_OPTIONS.items()}
             opts["language"] = lang
-            analysis = analyze_ufl_objects(objs, opts["scalar_type"])
-            ir = compute_ir(analysis, onames, prefix, opts, False)
-            code, suffixes = generate_code(ir, opts)
+            with _T.Recorder() as tlog:
+                analysis = analyze_ufl_objects(objs, opts["scalar_type"])
+                ir = compute_ir(analysis, onames, prefix, opts, False)
+                code, suffixes = generate_code(ir, opts)
             lab = _labels(ir)
+            by_text = {r["text"]: r["filling"].get("factory_name", "") for r in tlog if r["text"]}
 
             def canon(name):
                 return re.sub(r"[0-9a-f]{40}", lambda m: lab.get(m.group(0), "H"), name)
 
-            expected = {}  # factory name -> alias the IR asked for
-            for f in ir.forms:
-                expected[f.name] = f.name_from_uflfile
-            for e in ir.expressions:
-                expected[e.expression.name] = e.name_from_uflfile
+            # expected alias of the i-th form / expression block, from the UFL side only:
+            # <kind>_<prefix>_<name given in the UFL file, else the index among the objects of the kind>
+            import ufl as _ufl
+
+            uforms = [o for o in objs if isinstance(o, _ufl.Form)]
+            uexprs = [o[0] for o in objs if isinstance(o, tuple)]
+            expected_by_pos = {
+                "form": [f"form_{prefix}_{onames.get(id(o), i)}" for i, o in enumerate(uforms)],
+                "expression": [f"expression_{prefix}_{onames.get(id(o), i)}" for i, o in enumerate(uexprs)],
+            }
             groups = [
                 ("file_pre", code.file_pre),
                 ("integral", code.integrals),
@@ -429,7 +448,7 @@ def template_blocks():
                 ("file_post", code.file_post),
             ]
             for kind, blist in groups:
-                for tup in blist:
+                for pos, tup in enumerate(blist):
                     if lang == "C":
                         decl_text, impl_text = tup[0], tup[1]
                         declared = c_declared(decl_text)
@@ -440,19 +459,30 @@ def template_blocks():
                         defs = py_defined(impl_text) if impl_text.strip() else []
                     factory = ""
                     if kind in ("integral", "form", "expression"):
-                        m = re.search(r"Code for " + kind + r" (\w+)", impl_text)
-                        factory = m.group(1) if m else ""
+                        factory = by_text.get(impl_text, "")
+                        if not factory:
+                            m = re.search(r"Code for " + kind + r" (\w+)", impl_text)
+                            factory = m.group(1) if m else ""
+                        if not factory:
+                            problems.append(
+                                f"{lang}/{pname}/{kind}[{pos}]: the name of the generated object could not be determined "
+                                "(no recorded template instantiation produced this text and the comment "
+                                f"'Code for {kind} <name>' is absent); the block is left out of Generated/Templates.lean")
+                            continue
+                    exp_alias = expected_by_pos.get(kind, [])
+                    exp_alias = exp_alias[pos] if pos < len(exp_alias) else ""
                     blocks.append(
                         {
                             "lang": lang,
                             "probe": pname,
+                            "pfx": prefix,
                             "kind": kind,
                             "factory": canon(factory),
                             "declared": [canon(n) for n in declared],
                             "defined": [canon(n) for n, st, _ in defs if not st],
                             "statics": [canon(n) for n, st, _ in defs if st],
                             "aliases": [(canon(n), canon(t)) for n, _, t in defs if t is not None],
-                            "expected_alias": canon(expected.get(factory, "")),
+                            "expected_alias": exp_alias,
                         }
                     )
     blocks.sort(key=lambda b: (b["lang"], b["probe"], b["kind"], b["factory"]))
@@ -472,6 +502,8 @@ def render_templates(blocks) -> str:
         "structure Block where",
         "  lang : String",
         "  probe : String",
+        "  /-- the prefix (namespace) the probe was compiled with -/",
+        "  pfx : String",
         "  kind : String",
         "  /-- name of the generated object (\"\" for file blocks) -/",
         "  factory : String",
@@ -491,11 +523,12 @@ def render_templates(blocks) -> str:
     ]
     L.append(
         ",\n".join(
-            "  { lang := %s, probe := %s, kind := %s, factory := %s,\n    declared := %s,\n    defined := %s,\n"
+            "  { lang := %s, probe := %s, pfx := %s, kind := %s, factory := %s,\n    declared := %s,\n    defined := %s,\n"
             "    statics := %s,\n    aliases := [%s],\n    expectedAlias := %s }"
             % (
                 lean_string(b["lang"]),
                 lean_string(b["probe"]),
+                lean_string(b["pfx"]),
                 lean_string(b["kind"]),
                 lean_string(b["factory"]),
                 sl(b["declared"]),
@@ -536,7 +569,7 @@ def regenerate(which=("options", "templates")):
             if write_if_changed(GEN / "Options.lean", render_options(opts, acts)):
                 data["changed"].append("Options.lean")
         if "templates" in which:
-            blocks = template_blocks()
+            blocks = template_blocks(data.setdefault("problems", []))
             data["blocks"] = blocks
             if write_if_changed(GEN / "Templates.lean", render_templates(blocks)):
                 data["changed"].append("Templates.lean")
@@ -603,41 +636,66 @@ def hermetic_options(user_json=None, pwd_json=None):
         shutil.rmtree(root, ignore_errors=True)
 
 
+class CaptureError(RuntimeError):
+    """The harness cannot observe what it is meant to observe on this tree (a hook point moved):
+    reported by the checks as a broken tie (`chk.disagree`), never as an infrastructure error."""
+
+
 class CaptureSha1:
     """Record everything handed to `hashlib.sha1` *as seen from ffcx.naming*: `.strings` the
-    pre-hash strings of compute_signature, `.blobs` the byte strings of evaluation points."""
+    pre-hash strings of compute_signature, `.blobs` the byte strings of evaluation points.
+
+    Hooks both spellings naming.py could use: the module attribute `hashlib` (`hashlib.sha1(…)`) and a
+    name `sha1` imported with `from hashlib import sha1`. If neither exists a CaptureError is raised."""
 
     def __enter__(self):
         import ffcx.naming
 
         self.strings = []
         self.blobs = []
-        self._orig = ffcx.naming.hashlib
+        self._saved = {}
         outer = self
+
+        def sha1(data=b"", **kw):
+            raw = bytes(data)
+            try:
+                txt = raw.decode("utf-8")
+            except UnicodeDecodeError:
+                txt = None
+            if txt is not None and (";form;" in txt or ";expression;" in txt):
+                outer.strings.append(txt)  # a pre-hash string of compute_signature
+            else:
+                outer.blobs.append(raw)  # the bytes of an evaluation-point array
+            return _hashlib.sha1(data, **kw)
 
         class _Shim:
             def __getattr__(self, name):
                 return getattr(_hashlib, name)
 
-            def sha1(self, data=b"", **kw):
-                raw = bytes(data)
-                try:
-                    txt = raw.decode("utf-8")
-                except UnicodeDecodeError:
-                    txt = None
-                if txt is not None and (";form;" in txt or ";expression;" in txt):
-                    outer.strings.append(txt)  # a pre-hash string of compute_signature
-                else:
-                    outer.blobs.append(raw)  # the bytes of an evaluation-point array
-                return _hashlib.sha1(data, **kw)
-
-        ffcx.naming.hashlib = _Shim()
+        shim = _Shim()
+        shim.sha1 = sha1
+        if hasattr(ffcx.naming, "hashlib"):
+            self._saved["hashlib"] = ffcx.naming.hashlib
+            ffcx.naming.hashlib = shim
+        if callable(getattr(ffcx.naming, "sha1", None)):
+            self._saved["sha1"] = ffcx.naming.sha1
+            ffcx.naming.sha1 = sha1
+        if not self._saved:
+            raise CaptureError("cannot capture pre-hash strings: ffcx.naming has neither a `hashlib` nor a `sha1` "
+                               "attribute to hook")
         return self
 
     def __exit__(self, *a):
         import ffcx.naming
 
-        ffcx.naming.hashlib = self._orig
+        for k, v in self._saved.items():
+            setattr(ffcx.naming, k, v)
+
+    def require(self, n, what):
+        """At least `n` pre-hash strings must have been seen (else the hook is not where sha1 is called)."""
+        if len(self.strings) < n:
+            raise CaptureError(f"cannot capture pre-hash strings: {what} computed its names but only {len(self.strings)} of "
+                               f"{n} expected strings reached the sha1 hook of ffcx.naming (is sha1 reached under another name?)")
 
 
 class _NamesOnly(Exception):
@@ -653,6 +711,8 @@ def jit_names(objs, kind="form", options=None, **kw):
     def stop(module_name, object_names, cache_dir, timeout):
         raise _NamesOnly(module_name, list(object_names))
 
+    if not hasattr(jit, "get_cached_module"):
+        raise CaptureError("cannot stop jit at the cache lookup: ffcx.codegeneration.jit.get_cached_module is gone")
     orig = jit.get_cached_module
     jit.get_cached_module = stop
     lst = list(objs)
@@ -662,36 +722,193 @@ def jit_names(objs, kind="form", options=None, **kw):
                 fn = jit.compile_forms if kind == "form" else jit.compile_expressions
                 fn(lst, options=dict(options or {}), cache_dir="/nonexistent/ffcx-verif-names", **kw)
             except _NamesOnly as e:
+                cap.require(1 + len(lst), "jit." + fn.__name__)
                 return e.args[0], e.args[1], list(cap.strings), lst
         raise RuntimeError("jit did not reach the cache lookup")
     finally:
         jit.get_cached_module = orig
 
 
-def expression_signature(expr):
-    """UFL signature of an expression with the renumbering of ffcx.naming.compute_signature
-    (UFL-level input of the model; mirrors naming.py lines 38-63)."""
+# --------------------------------------------------------------------------- renumbering (naming.py:41-64)
+class Unsupported(Exception):
+    """An expression outside the renumbering model (a terminal over several meshes / no ufl.Mesh)."""
+
+
+_CODES = {}
+
+
+def _code(*key):
+    """Process-wide injective coding of static data (element reprs, shapes, class names) by naturals."""
+    k = repr(key)
+    if k not in _CODES:
+        _CODES[k] = len(_CODES)
+    return _CODES[k]
+
+
+def _mesh_key(m):
     import ufl
 
-    coeffs = ufl.algorithms.extract_coefficients(expr)
-    consts = ufl.algorithms.analysis.extract_constants(expr)
-    args = ufl.algorithms.analysis.extract_arguments(expr)
+    if not isinstance(m, ufl.Mesh):
+        raise Unsupported(f"domain {type(m).__name__}")
+    return (int(m.ufl_id()), _code("cel", repr(m.ufl_coordinate_element())))
+
+
+def term_of(t):
+    """UFL terminal -> model term tuple (see DriverNames.lean `renumber`)."""
+    from ufl.argument import BaseArgument
+    from ufl.classes import Constant, GeometricQuantity
+    from ufl.coefficient import BaseCoefficient
+
+    if isinstance(t, BaseCoefficient):
+        fs = t.ufl_function_space()
+        return ("coeff", int(t.count()), _code("space", type(fs).__name__, repr(fs.ufl_element()), repr(fs.label())),
+                *_mesh_key(fs.ufl_domain()))
+    if isinstance(t, Constant):
+        return ("const", int(t.count()), _code("shape", repr(t.ufl_shape)), *_mesh_key(t.ufl_domain()))
+    if isinstance(t, BaseArgument):
+        fs = t.ufl_function_space()
+        part = 0 if t.part() is None else int(t.part()) + 1
+        return ("arg", int(t.number()), part, _code("space", type(fs).__name__, repr(fs.ufl_element()), repr(fs.label())),
+                *_mesh_key(fs.ufl_domain()))
+    if isinstance(t, GeometricQuantity):
+        return ("geo", _code("geo", type(t).__name__), *_mesh_key(t._domain))
+    return ("other", _code("other", type(t).__name__, repr(t)))
+
+
+def sexp_term(t):
+    return "(" + " ".join(str(x) for x in t) + ")"
+
+
+def expression_terms(expr):
+    """The terminals of `expr` in UFL's unique pre-order traversal, as (objects, model terms)."""
+    from ufl.corealg.traversal import traverse_unique_terminals
+
+    objs = list(traverse_unique_terminals(expr))
+    return objs, [term_of(t) for t in objs]
+
+
+_SET_KINDS = ("coeffs", "consts", "args")
+
+
+def _set_kind(ufl_types):
+    from ufl.argument import BaseArgument
+    from ufl.classes import Constant, GeometricQuantity
+    from ufl.coefficient import BaseCoefficient
+
+    ts = ufl_types if isinstance(ufl_types, (list, tuple)) else (ufl_types,)
+    for kind, cls in zip(_SET_KINDS + ("geos",), (BaseCoefficient, Constant, BaseArgument, GeometricQuantity)):
+        if len(ts) == 1 and ts[0] is cls:
+            return kind
+    return None
+
+
+def set_orders(expr):
+    """Iteration orders of the three sets `extract_type(expr, T)` builds in THIS process (harness's own calls)."""
+    import ufl
+    from ufl.argument import BaseArgument
+    from ufl.classes import Constant
+    from ufl.coefficient import BaseCoefficient
+
+    return {kind: list(ufl.algorithms.analysis.extract_type(expr, cls))
+            for kind, cls in zip(_SET_KINDS, (BaseCoefficient, Constant, BaseArgument))}
+
+
+class CaptureRenumbering:
+    """Observe ONE run of the expression branch of ffcx.naming.compute_signature: the iteration order of every
+    set `ufl.algorithms.analysis.extract_type` returned (the very set objects the code then iterates) and the dict
+    `rn` handed to `ufl.algorithms.signature.compute_expression_signature`."""
+
+    def __enter__(self):
+        import ufl
+
+        an, sg = ufl.algorithms.analysis, ufl.algorithms.signature
+        for mod, name in ((an, "extract_type"), (sg, "compute_expression_signature")):
+            if not hasattr(mod, name):
+                raise CaptureError(f"cannot capture the renumbering: {mod.__name__}.{name} is gone")
+        self._an, self._sg = an, sg
+        self._orig_et, self._orig_ces = an.extract_type, sg.compute_expression_signature
+        self.sets, self.calls = [], []
+        outer = self
+
+        def extract_type(a, ufl_types, *args, **kw):
+            res = outer._orig_et(a, ufl_types, *args, **kw)
+            kind = _set_kind(ufl_types)
+            if kind is not None:
+                outer.sets.append((kind, a, list(res)))
+            return res
+
+        def compute_expression_signature(expr, renumbering):
+            outer.calls.append((expr, dict(renumbering)))
+            return outer._orig_ces(expr, renumbering)
+
+        an.extract_type = extract_type
+        sg.compute_expression_signature = compute_expression_signature
+        return self
+
+    def __exit__(self, *a):
+        self._an.extract_type = self._orig_et
+        self._sg.compute_expression_signature = self._orig_ces
+
+    def orders_for(self, expr):
+        """The captured set orders of the top-level extract_type calls on `expr` (last call per kind)."""
+        out = {}
+        for kind, a, items in self.sets:
+            if a is expr:
+                out[kind] = items
+        self.geo_set_iterated = "geos" in out  # the pre-61cd434 shape: a SET of geometric quantities is iterated
+        missing = [k for k in _SET_KINDS if k not in out]
+        if missing:
+            raise CaptureError(f"cannot capture the renumbering: compute_signature did not call extract_type(expr, …) for {missing} "
+                               "(naming.py:41-43 changed shape)")
+        return out
+
+
+def model_renumber(d, terms, orders):
+    """Ask the Lean model (`renumber`, `leafData`) — terms (in traversal order) / orders are model term tuples."""
+    req = ("(renumber (terms " + " ".join(map(sexp_term, terms)) + ") "
+           + " ".join("(" + k + " " + " ".join(map(sexp_term, orders[k])) + ")" for k in _SET_KINDS) + ")")
+    r = d.ask(req)
+    out = {}
+    for item in r:
+        out[item[0]] = item[1:]
+    res = {"valid": out["valid"][0] == "true", "distinctkeys": out["distinctkeys"][0] == "true", "geonew": int(out["geonew"][0])}
+    for k in ("coeffs", "consts", "args", "data"):
+        res[k] = [tuple([x[0]] + [int(v) for v in x[1:]]) for x in out[k]]
+    res["domains"] = [tuple(int(v) for v in x) for x in out["domains"]]
+    return res
+
+
+def model_rn_dict(expr, res):
+    """The dict `rn` the MODEL prescribes, over the real objects of `expr` (object -> number)."""
+    import ufl
+
+    objs, _terms = expression_terms(expr)
     rn = {}
-    rn.update((c, i) for i, c in enumerate(coeffs))
-    rn.update((c, i) for i, c in enumerate(consts))
-    rn.update((c, i) for i, c in enumerate(args))
-    domains = []
-    for c in coeffs:
-        domains.append(*ufl.domain.extract_domains(c))
-    for a in args:
-        domains.append(*ufl.domain.extract_domains(a))
-    for gc in ufl.algorithms.analysis.extract_type(expr, ufl.classes.GeometricQuantity):
-        domains.append(*ufl.domain.extract_domains(gc))
-    for c in consts:
-        domains.append(*ufl.domain.extract_domains(c))
-    domains = ufl.algorithms.analysis.unique_tuple(domains)
-    rn.update((d, i) for i, d in enumerate(domains))
-    return ufl.algorithms.signature.compute_expression_signature(expr, rn)
+    num = {}
+    for k in ("coeffs", "consts", "args"):
+        for i, t in enumerate(res[k]):
+            num[t] = i
+    dnum = {m: i for i, m in enumerate(res["domains"])}
+    for o in objs:
+        t = term_of(o)
+        if t in num:
+            rn[o] = num[t]
+        for dom in o.ufl_domains():
+            if isinstance(dom, ufl.Mesh) and _mesh_key(dom) in dnum:
+                rn[dom] = dnum[_mesh_key(dom)]
+    return rn
+
+
+def expression_signature(expr, d):
+    """UFL signature of an expression under the renumbering computed by the LEAN model (`renumber` of
+    FfcxModel/Jit/Renumber.lean, asked through driver session `d`) from the terminals of `expr` and the set
+    iteration orders of this process. Nothing of naming.py:41-64 is re-implemented in Python."""
+    import ufl
+
+    _objs, terms = expression_terms(expr)
+    so = set_orders(expr)
+    res = model_renumber(d, terms, {k: [term_of(t) for t in so[k]] for k in _SET_KINDS})
+    return ufl.algorithms.signature.compute_expression_signature(expr, model_rn_dict(expr, res))
 
 
 def model_env():
